@@ -60,6 +60,11 @@ def run(chk):
     # "a cached output from a different input ... is not reused" rests on the hash: what is hashed is what is dumped is what is
     # loaded, every field of the input included (C17.R5 under this property's name)
     chk.borrow("C18.R9", c17.r5_job_codec, chk)
+    # ... and the cached output that is judged (and post-processed) is the file as it is now, not what a memoised loader read in an
+    # earlier run of the same process; the input that is prepared carries the driver's settings as they are now, not those of the first
+    # access (C17.R5 loaders, C17.R1 fresh bound job - the same clauses under this property's name)
+    chk.borrow("C18.R9", c17.r5b_loaders_and_converters, chk)
+    chk.borrow("C18.R10", c17.r6_bound_job_is_fresh, chk)
 
 
 # ---------------------------------------------------------------------------
